@@ -29,8 +29,9 @@ C06Sels == {"Self", "ref", "Borrow"}
 \* "byvalue-method": the trait ALSO has a `self`-by-value method; "typed-receiver": a method written `self: &Self`;
 \* "marker": the program ALSO entraits a method-less trait with the same selector (availability must follow the same rule);
 \* "lifetime-trait": the trait has two lifetime parameters related by a where-predicate (`where 't: 'u`); "default-param": a defaulted type parameter
+\* "unsized-param": a type parameter with a relaxed bound (`trait Tr<K: ?Sized>`), provided and used at an unsized argument (`Tr<str>`)
 C06Extras == {"none", "generic-trait", "generic-method", "supertrait", "where", "borrowed-return", "byvalue-method", "typed-receiver",
-              "lifetime-trait", "default-param", "marker"}
+              "lifetime-trait", "default-param", "marker", "unsized-param"}
 C06WellFormed(p) ==
   /\ (p.async = "native" => p.sel = "Self")            \* dyn dispatch of `async fn` needs async_trait
   /\ (p.extra \in {"generic-method", "byvalue-method"} => p.sel = "Self")    \* not dyn compatible
@@ -50,7 +51,9 @@ C06Sat(a) == CASE a = "Prov" -> {"Provides", "Sync", "Send", "static"} [] a = "N
 C06PredAvail(p, a) == C06Bounds(p) \subseteq C06Sat(a)
 
 \* ---- C07
-C07Kinds == {"static", "dyn"}
+\* "dynborrow": dynamic selection spelled `delegate_by = Borrow` (deprecated, documented): the `dyn TraitImpl<T>` comes from `T: Borrow<..>`;
+\* the application also hands out the other target through AsRef, which must never be reached
+C07Kinds == {"static", "dyn", "dynborrow"}
 \* typed: the trait's receivers are spelled `self: &Self`
 \* mixed: an async_trait trait that ALSO has a synchronous method (the `+ Sync` decisions are per trait, not per method)
 C07WellFormed(p) == (p.async = "native" => p.kind = "static") /\ (p.mixed => p.async = "async_trait")
